@@ -113,6 +113,14 @@ def impl(case):
         kw = {}
         b = Backend(bname_str(nm, na, native, getdev), api=tok(ca), load=bool(ld), use_environ=bool(ue))
         out = [len(mods(log))] + mods(log)
+        # which backend, stated directly: an explicit name beats MIDO_BACKEND (read when the Backend is made) beats the default; an explicit api
+        # beats the /API suffix of whichever name was used
+        src = bname_str(nm, na, native, getdev) or bname_str(em, ea, native, getdev) or ensure_module(1, native, getdev)
+        want_name, _, sfx = src.partition('/')
+        want_api = tok(ca) or sfx or None
+        if (b.name, b.api) != (want_name, want_api):
+            fail = ('backend-resolution', 'Backend(%r, api=%r) with MIDO_BACKEND=%r resolved to module %r api %r, expected %r api %r'
+                    % (bname_str(nm, na, native, getdev), tok(ca), os.environ.get('MIDO_BACKEND'), b.name, b.api, want_name, want_api))
         i = 0
         while i < len(ops):
             k = ops[i]
@@ -155,6 +163,8 @@ def impl(case):
                             fail = ('environment-name-lost', 'open op %d without a name constructed ports named %r, the environment says %r' % (k, got_names, envs))
                     if akw >= 0 and tok(akw) and any(a != tok(akw) for a in got_apis):
                         fail = ('explicit-api-lost', 'open op %d with api=%r passed api %r' % (k, tok(akw), got_apis))
+                    elif akw < 0 and want_api and any(a != want_api for a in got_apis):
+                        fail = ('backend-api-lost', 'open op %d on a backend with api %r passed api %r to the constructors' % (k, want_api, got_apis))
                 port.close()
             elif k in (3, 4, 5):
                 akw = ops[i + 1]
@@ -165,6 +175,8 @@ def impl(case):
                 if getdev:
                     kws = ev[0][2]
                     out += [4, untok(kws['api']) if 'api' in kws else -1, -9]
+                    if fail is None and (tok(akw) if akw >= 0 and tok(akw) else want_api) and kws.get('api') != (tok(akw) if akw >= 0 and tok(akw) else want_api):
+                        fail = ('listing-api-lost', 'name listing %d passed api %r to get_devices, expected %r' % (k, kws.get('api'), tok(akw) if akw >= 0 and tok(akw) else want_api))
                     want = want_names(k)
                     if names != want and fail is None:
                         fail = ('names', 'name listing %d gave %r, expected %r' % (k, names, want))
